@@ -343,6 +343,11 @@ def eval_op(op, env=None):
 
 def _alias_years(rng, lo, hi, n):
     y0 = rng.randrange(lo, hi + 1)
+    if rng.random() < 0.3:
+        # boundary slots of the 1024-entry table (first/last slot and their neighbours)
+        y0 = (y0 & ~1023) + rng.choice([1023, 1023, 0, 1022, 1])
+        if not lo <= y0 <= hi:
+            y0 = min(max(y0, lo), hi)
     ys = {y0}
     ks = list(range(-20, 21))
     rng.shuffle(ks)
@@ -395,6 +400,8 @@ def build_pool(master_seed, scale=1.0):
                 p0 = rng.randrange((24837) >> 5, (60000) >> 5)  # tail zone
             else:
                 p0 = rng.randrange(periods_lo, periods_hi + 1)
+            if rng.random() < 0.2:
+                p0 = (p0 & ~511) + rng.choice([511, 0, 510, 1])  # boundary slots of the 512-entry table
             ps = {p0}
             ks = list(range(-260, 260))
             rng.shuffle(ks)
